@@ -409,6 +409,28 @@ func judgeTicker(c *vkit.Case, res *tickerResult, group string) bool {
 			r.Count("ticks", "pairs within 50us of the bound", 1)
 		}
 	}
+	// regime rule (see seq.go): every tick must fit some regime's window
+	{
+		var regs []seqRegime
+		for k, rg := range res.regimes {
+			sr := seqRegime{d: rg.D, j: rg.J, b: rg.Begin}
+			if k+1 < len(res.regimes) {
+				sr.end = res.regimes[k+1].End
+			} else if res.stopped {
+				sr.end = res.stopEnd
+			}
+			regs = append(regs, sr)
+		}
+		for i, t := range res.ticks {
+			r.Eval(1)
+			if !tickLegit(regs, t.T) {
+				w := res.witness()
+				w["tick_index"] = i
+				c.Violation("tick-outside-every-regime", fmt.Sprintf("tick %d of a JitterTicker life is stamped where no regime can have sent it (later than the return of the call that closed a regime, and earlier than d - jitter after the call that opened the next)", i), w)
+				return true
+			}
+		}
+	}
 	// silence after Stop
 	if res.stopped {
 		after := res.ticks[res.nBeforeStop:]
@@ -528,7 +550,7 @@ func drawPlan(rnd *vkit.Rand) tickerPlan {
 // coincides with the action on every case.
 
 func gateCases(r *vkit.Report) {
-	n := r.Scale(400, 1600)
+	n := r.Scale(320, 1200)
 	r.Cases("gate", n, 1, func(c *vkit.Case) {
 		rnd := c.Rand
 		p := tickerPlan{}
@@ -569,7 +591,7 @@ func gateCases(r *vkit.Report) {
 // 100-800 us at ticker.fire.
 
 func stressCases(r *vkit.Report) {
-	n := r.Scale(150, 600)
+	n := r.Scale(120, 480)
 	const lives = 64
 	r.Cases("stress", n, 1, func(c *vkit.Case) {
 		rnd := c.Rand
